@@ -33,12 +33,15 @@ class P:
             for p in postfix: items.append(("post", c, p))
             items.append(("tern", c, c, c)); items.append(("bin", "=", A, c)); items.append(("bin", "*", c, c))
             items.append(("call", "g", [c, c])); items.append(("list", [c, c])); items.append(("map", [(c, c)]))
-        strs = ["'a\"b'", "\"it's\"", "''", "\"\"", "'é'", "'a b'", "\"[1,2]\"", "'?:'"]
+        strs = ["'a\"b'", "\"it's\"", "''", "\"\"", "'é'", "'a b'", "\"[1,2]\"", "'?:'",
+                # a backslash is an ordinary character of a string: it does not escape the closing quote
+                "'a\\'", "\"b\\\"", "'\\\\'", "\"it's \\\"", "'say \\'"]
         for s in strs:
             items.append(("lit", s)); items.append(("bin", "+", ("lit", s), ("lit", s))); items.append(("map", [(("lit", s), ("lit", s))]))
         cases = flow.mk_cases("shapes", [("RT:" + hx(progs.render_full(t)), None) for t in items])
         chains = ["a;b", "a=1;b=a+1;b", "1;2;3;", "[1,2,];{1:2,}", "f();g(1)", "",
                   # sub-trees equal as numbers, different as text: each literal is written as it was read
+                  "\"it's \\\"ok\\\"\"", "x == \"don't say \\\"no\\\"\"", "'it\\'s \"q\"'", "['a\\', 'b']", "\"a\\\" + \"b\"",
                   "a * 0.10 > 5 ? a * 0.1 : 0", "[[1], [1.0], [1.00], [1]]", "f(1.50) + f(1.5) + f(1.50)", "-(1.0) + -(1)", "{1: [2.0], 1.0: [2]}"]
         cases += flow.mk_cases("chains", ["RT:" + hx(s) for s in chains])
         # operators spelled as words (registered at run time: postfix, prefix, infix) directly in front of every separator the
